@@ -5,6 +5,8 @@
 //verif:pkg internal/xds/resolver
 //verif:bound loop=64 steps=6000000 paths=600000
 //verif:stub google.golang.org/grpc/internal/xds/resolver.serviceConfigJSON => verifStubServiceConfigJSON
+//verif:stub (*google.golang.org/grpc/internal/xds/xdsdepmgr.DependencyManager).SubscribeToCluster => verifStubSubscribe
+//verif:stub (*google.golang.org/grpc/internal/xds/bootstrap.Config).Node => verifStubNode
 //verif:noop (*google.golang.org/grpc/internal/grpclog.PrefixLogger).V
 //verif:noop (*google.golang.org/grpc/internal/grpclog.PrefixLogger).Infof
 //verif:noop (*google.golang.org/grpc/grpclog.componentData).Errorf
@@ -15,9 +17,14 @@ package resolver
 import (
 	"context"
 
+	v3corepb "github.com/envoyproxy/go-control-plane/envoy/config/core/v3"
 	"google.golang.org/grpc/internal/grpcsync"
 	iresolver "google.golang.org/grpc/internal/resolver"
+	"google.golang.org/grpc/internal/xds/balancer/clustermanager"
+	"google.golang.org/grpc/internal/xds/bootstrap"
+	"google.golang.org/grpc/internal/xds/xdsclient"
 	"google.golang.org/grpc/internal/xds/xdsclient/xdsresource"
+	"google.golang.org/grpc/internal/xds/xdsdepmgr"
 	"google.golang.org/grpc/resolver"
 	"google.golang.org/grpc/serviceconfig"
 )
@@ -150,4 +157,90 @@ func verifH_C51_refcount() {
 		verifAssert(len(verifSentConfigs) >= 3, "the last commit of a plugin-routed RPC triggers a new service config")
 	}
 	verifCover("dropped")
+}
+
+// ---- the real xdsResolver.Update path (newConfigSelector, sendNewServiceConfig, stop of the previous selector) ----
+
+var verifSubscribed, verifUnsubscribed map[string]int
+
+func verifStubSubscribe(m *xdsdepmgr.DependencyManager, name string) func() {
+	verifSubscribed[name]++
+	return func() { verifUnsubscribed[name]++ }
+}
+
+func verifStubNode(c *bootstrap.Config) *v3corepb.Node { return &v3corepb.Node{Id: "node"} }
+
+type verifXDSClient struct{ xdsclient.XDSClient }
+
+func (verifXDSClient) BootstrapConfig() *bootstrap.Config { return &bootstrap.Config{} }
+
+// the channel: on every update it may first route an RPC with the selector it still has installed, then installs the
+// new configuration and selector together
+type verifChannelCC struct {
+	resolver.ClientConn
+	installed   iresolver.ConfigSelector
+	routeDuring bool
+	picked      []string
+	hooks       []func()
+}
+
+func (c *verifChannelCC) ReportError(error) {}
+func (c *verifChannelCC) ParseServiceConfig(string) *serviceconfig.ParseResult {
+	return &serviceconfig.ParseResult{}
+}
+func (c *verifChannelCC) UpdateState(s resolver.State) error {
+	named := verifSentConfigs[len(verifSentConfigs)-1]
+	if c.installed != nil && c.routeDuring {
+		cfg, err := c.installed.SelectConfig(iresolver.RPCInfo{Context: context.Background(), Method: "/s/m"})
+		verifAssert(err == nil, "an RPC arriving during the switch is still routed by the installed selector")
+		name := clustermanager.PickedCluster(cfg.Context)
+		verifAssert(verifNamed(named, name), "the cluster an RPC was routed to is part of the configuration the channel is given, until that RPC commits")
+		c.picked = append(c.picked, name)
+		c.hooks = append(c.hooks, cfg.OnCommitted)
+		verifCover("rpc-routed-during-the-switch")
+	}
+	c.installed = iresolver.GetConfigSelector(s)
+	return nil
+}
+
+func verifXDSConfig(clusters ...string) *xdsresource.XDSConfig {
+	prefix := ""
+	var wcs []xdsresource.WeightedCluster
+	for _, n := range clusters {
+		wcs = append(wcs, xdsresource.WeightedCluster{Name: n, Weight: 1})
+	}
+	rt := &xdsresource.Route{Prefix: &prefix, WeightedClusters: wcs, ActionType: xdsresource.RouteActionRoute}
+	return &xdsresource.XDSConfig{Listener: &xdsresource.ListenerUpdate{APIListener: &xdsresource.HTTPConnectionManagerConfig{}},
+		RouteConfig: &xdsresource.RouteConfigUpdate{}, VirtualHost: &xdsresource.VirtualHost{Routes: []*xdsresource.Route{rt}}}
+}
+
+func verifH_C51_update() {
+	verifSentConfigs = nil
+	verifSubscribed, verifUnsubscribed = map[string]int{}, map[string]int{}
+	cc := &verifChannelCC{routeDuring: verifBool("an-rpc-arrives-during-the-switch")}
+	ctx, cancel := context.WithCancel(context.Background())
+	r := &xdsResolver{cc: cc, xdsClient: verifXDSClient{}, activeClusters: map[string]*clusterInfo{}, activePlugins: map[string]*clusterInfo{},
+		serializer: grpcsync.NewCallbackSerializer(ctx), serializerCancel: cancel}
+	r.Update(verifXDSConfig("A"))      // everything is routed to A
+	r.Update(verifXDSConfig("B"))      // the route configuration replaces A by B
+	verifAtQuiescence(func() {
+		verifAssert(len(verifSentConfigs) == 2, "each update pushes a configuration")
+		if cc.routeDuring {
+			verifAssert(len(cc.picked) == 1 && cc.picked[0] == "cluster:A", "the RPC was routed to the cluster being removed")
+			_, kept := r.activeClusters["cluster:A"]
+			verifAssert(kept && verifUnsubscribed["A"] == 0, "the removed cluster stays alive while that RPC is uncommitted")
+			cc.hooks[0]()
+			cc.hooks[0]() // the commit hook runs at most once
+		}
+		verifAssert(verifUnsubscribed["A"] == 1 && verifSubscribed["A"] == 1, "once no RPC needs it the removed cluster is unsubscribed exactly once")
+		cc.routeDuring = false
+		r.Update(verifXDSConfig("B"))
+		verifAtQuiescence(func() {
+			_, kept := r.activeClusters["cluster:A"]
+			verifAssert(!kept && !verifNamed(verifSentConfigs[len(verifSentConfigs)-1], "cluster:A"), "and it is dropped from the next configuration")
+			verifAssert(verifNamed(verifSentConfigs[len(verifSentConfigs)-1], "cluster:B") && verifUnsubscribed["B"] == 0, "the cluster still routed to stays")
+			cancel()
+			verifCover("real-update-path")
+		})
+	})
 }
